@@ -24,12 +24,13 @@ LIBS = (vcheck.COMMON, PROTO)
 CONFIGS = ("tag", "attr", "doctype", "cdata", "chars")
 BOUNDS = {"quick": {"tag": 5, "attr": 5, "doctype": 5, "cdata": 5, "chars": 4},
           "thorough": {"tag": 6, "attr": 6, "doctype": 6, "cdata": 6, "chars": 5}}
+# prefix atoms + alphabet of each configuration (as in spec/xml/XmlImpl_<name>_<tier>.cfg)
 ALPHABETS = {
-    "tag": ["lt", "gt", "slash", "qmark", "bang", "eq", "dq", "sp", "nl", "x", "nul"],
-    "attr": ["stag", "attr", "eq", "dq", "sq", "sp", "nl", "x", "gt", "slash", "nul"],
-    "doctype": ["doctype", "cdo", "cdc", "lt", "gt", "lb", "rb", "dq", "sq", "x", "nul"],
-    "cdata": ["cdata", "cdend", "cdo", "cdc", "lt", "bang", "dash", "rb", "gt", "x", "nul"],
-    "chars": ["lt", "gt", "slash", "bang", "qmark", "dash", "eq", "dq", "sq", "lb", "rb", "sp", "nl", "x", "nul"]}
+    "tag": (["none"], ["lt", "gt", "slash", "qmark", "eq", "sp", "nl", "x", "nul"]),
+    "attr": (["stag"], ["attr", "eq", "dq", "sq", "sp", "nl", "x", "gt", "slash", "nul"]),
+    "doctype": (["doctype"], ["cdo", "cdc", "lt", "gt", "lb", "rb", "dq", "sq", "x", "nul"]),
+    "cdata": (["cdata", "cdo"], ["cdend", "cdc", "dash", "rb", "gt", "lt", "x", "nul"]),
+    "chars": (["none"], ["lt", "gt", "slash", "bang", "qmark", "dash", "eq", "dq", "sq", "lb", "rb", "sp", "nl", "x", "nul"])}
 # regression modelled -> (cfg, property TLC must report)
 DEFECTS = (
     ("XmlImpl_defect_void.cfg", "RefinesXml", "inTag not cleared at '/>': an Attribute token outside a tag (XmlStream!Tok)"),
@@ -45,68 +46,76 @@ def run(ck, thorough):
     tier = "thorough" if thorough else "quick"
     drift = {"cases": 0, "executions": 0, "mismatches": 0, "kinds": {}, "samples": []}
     kind_count, end_count, norm_cases = {}, {}, 0
-    fails = []
 
-    def model(name):
+    def model(job):
+        """One configuration: TLC (I => P, cases) and the replay of its cases on the code."""
+        n, name = job
         cfg = "XmlImpl_%s_%s.cfg" % (name, tier)
         cases = ck.path("impl-cases-%s.ndjson" % name)
-        r = ck.tlc("xml", "XmlImpl", cfg, label="I=>P (RefinesXml, RefinesTok) + predicted token lists: alphabet '%s'" % name,
-                   env={"VERIF_CASES": cases}, lib_dirs=LIBS, workers=max(2, min(6, ck.cores // (2 if thorough else 3))),
-                   heap="6g", timeout=1500 if thorough else 280)
-        return name, cases, r
-
-    # the configurations are independent: run them side by side (quick: all; thorough: two at a time)
-    with concurrent.futures.ThreadPoolExecutor(max_workers=2 if thorough else len(CONFIGS)) as ex:
-        runs = list(ex.map(model, CONFIGS))
-    for name, cases, r in runs:
+        ck.tlc("xml", "XmlImpl", cfg, label="I=>P (RefinesXml, RefinesTok) + predicted token lists: alphabet '%s'" % name,
+               env={"VERIF_CASES": cases}, lib_dirs=LIBS, workers=4 if thorough else 3, heap="6g", timeout=1500 if thorough else 280)
         tp = ck.path("impl-trace-%s.ndjson" % name)
         s = ck.drive("xmldoc", "impl", "-cases", cases, "-out", tp, "-seed", ck.seed, "-variants", 2 if thorough else 1,
-                     "-every", 400 if thorough else 100, timeout=1200)
-        if s["cases"] == 0:
-            ck.fatal("XmlImpl %s emitted no cases" % name)
-        for k, v in (s.get("kind_count") or {}).items():
-            kind_count[k] = kind_count.get(k, 0) + v
-        for k, v in (s.get("end_count") or {}).items():
-            end_count[k] = end_count.get(k, 0) + v
-        norm_cases += s.get("norm_cases", 0)
-        ck.cov["evaluations"] += s["executions"]
-        ck.cov["distinct_nontrivial"] += s["distinct_nontrivial"]
-        drift["cases"] += s["cases"]
-        drift["executions"] += s["executions"]
-        drift["mismatches"] += s["mismatches"]
-        for k, v in (s.get("drift_kinds") or {}).items():
-            drift["kinds"][k] = drift["kinds"].get(k, 0) + v
-        drift["samples"] += [dict(d, alphabet=name) for d in (s.get("drift_samples") or [])][:4]
-        if name == "attr":
-            ck.cov["samples"] += (s.get("samples") or [])[:1]
-        # what the code did on the differing inputs (and on a sample of the others) is judged by the property
-        fails += ck.validate("xml", "XmlTrace", "XmlTrace.cfg", tp, timeout=1200)
+                     "-every", 400 if thorough else 100, "-tidbase", n * 10000000, timeout=1200)
         os.remove(cases)
-    # vacuity: the model must have predicted every token type, both kinds of error report and an in-place rewrite
-    missing = [k for k in KINDS if not kind_count.get(k)]
-    if missing or not end_count.get("eof") or not end_count.get("error") or not norm_cases:
-        ck.fatal("vacuity: XmlImpl never predicted %s (ends %s, rewrites %d)" % (missing, end_count, norm_cases))
+        return name, tp, s
 
-    # models of regressions: TLC must reject each; a wrong model invisible to P: the replay must notice it
     def defect(d):
         cfg, prop, what = d
         ck.tlc("xml", "XmlImpl", cfg, label="defect model rejected: " + what, expect_violation=prop, lib_dirs=LIBS, workers=2,
                env={"VERIF_CASES": ck.path("unused")}, timeout=280)
-    with concurrent.futures.ThreadPoolExecutor(max_workers=len(DEFECTS) + 1) as ex:
-        toggle = ex.submit(lambda: ck.tlc("xml", "XmlImpl", "XmlImpl_drift_dtquote.cfg", count=False, lib_dirs=LIBS, workers=2, timeout=280,
-                                          label="wrong model (DOCTYPE in-string flag toggled by both quotes): satisfies the all-input clauses",
-                                          env={"VERIF_CASES": ck.path("impl-cases-toggle.ndjson")}))
-        list(ex.map(defect, DEFECTS))
-        toggle.result()
-    s = ck.drive("xmldoc", "impl", "-cases", ck.path("impl-cases-toggle.ndjson"), "-out", ck.path("impl-trace-toggle.ndjson"),
-                 "-seed", ck.seed, "-every", 0, timeout=600)
-    if not s["mismatches"]:
-        ck.fatal("self-test: the replay did not notice the wrong DOCTYPE model (0 differences in %d cases)" % s["cases"])
-    drift["selftest_wrong_model_differences"] = s["mismatches"]
+
+    def wrong_model():
+        """A wrong model that the all-input clauses cannot see: TLC accepts it, the replay must report differences."""
+        cases = ck.path("impl-cases-toggle.ndjson")
+        ck.tlc("xml", "XmlImpl", "XmlImpl_drift_dtquote.cfg", count=False, lib_dirs=LIBS, workers=2, timeout=280, env={"VERIF_CASES": cases},
+               label="wrong model (DOCTYPE in-string flag toggled by both quotes): satisfies the all-input clauses")
+        return ck.drive("xmldoc", "impl", "-cases", cases, "-out", ck.path("impl-trace-toggle.ndjson"), "-seed", ck.seed, "-every", 0, timeout=600)
+
+    # the configurations are independent: side by side (thorough: the defect models first, then three at a time)
+    with concurrent.futures.ThreadPoolExecutor(max_workers=3 if thorough else len(CONFIGS) + 2) as ex:
+        fd = [ex.submit(defect, d) for d in DEFECTS]
+        fw = ex.submit(wrong_model)
+        runs = list(ex.map(model, enumerate(CONFIGS)))
+        for f in fd:
+            f.result()
+        sw = fw.result()
+    if not sw["mismatches"]:
+        ck.fatal("self-test: the replay did not notice the wrong DOCTYPE model (0 differences in %d cases)" % sw["cases"])
+    drift["selftest_wrong_model_differences"] = sw["mismatches"]
+
+    alltr = ck.path("impl-trace.ndjson")
+    with open(alltr, "w") as out:
+        for name, tp, s in runs:
+            if s["cases"] == 0:
+                ck.fatal("XmlImpl %s emitted no cases" % name)
+            for k, v in (s.get("kind_count") or {}).items():
+                kind_count[k] = kind_count.get(k, 0) + v
+            for k, v in (s.get("end_count") or {}).items():
+                end_count[k] = end_count.get(k, 0) + v
+            norm_cases += s.get("norm_cases", 0)
+            ck.cov["evaluations"] += s["executions"]
+            ck.cov["distinct_nontrivial"] += s["distinct_nontrivial"]
+            drift["cases"] += s["cases"]
+            drift["executions"] += s["executions"]
+            drift["mismatches"] += s["mismatches"]
+            for k, v in (s.get("drift_kinds") or {}).items():
+                drift["kinds"][k] = drift["kinds"].get(k, 0) + v
+            drift["samples"] += [dict(d, alphabet=name) for d in (s.get("drift_samples") or [])][:4]
+            if name == "attr":
+                ck.cov["samples"] += (s.get("samples") or [])[:1]
+            out.write(open(tp).read())
+            os.remove(tp)
+    # vacuity: the model must have predicted every token type, both kinds of error report and an in-place rewrite
+    missing = [k for k in KINDS if not kind_count.get(k)]
+    if missing or not end_count.get("eof") or not end_count.get("error") or not norm_cases:
+        ck.fatal("vacuity: XmlImpl never predicted %s (ends %s, rewrites %d)" % (missing, end_count, norm_cases))
+    # what the code did on the differing inputs (and on a seeded sample of the others) is judged by the property
+    fails = ck.validate("xml", "XmlTrace", "XmlTrace.cfg", alltr, timeout=1200)
 
     ck.cov["model_drift"] = ck.cov.get("model_drift") or []
     ck.cov["model_drift"].append({"model": "xml/XmlImpl.tla", **drift})
-    ck.cov["constants"]["XmlImpl"] = {"MaxLen": BOUNDS[tier], "alphabets": ALPHABETS, "token_types_predicted": kind_count,
+    ck.cov["constants"]["XmlImpl"] = {"MaxLen": BOUNDS[tier], "prefixes_and_alphabets": ALPHABETS, "token_types_predicted": kind_count,
                                       "error_reports_predicted": end_count, "cases_with_rewrite": norm_cases}
     if drift["mismatches"]:
         ck.log("MODEL-DRIFT: xml.Lexer differs from spec/xml/XmlImpl.tla on %d of %d inputs (%s); not a verdict - see evidence" % (
